@@ -60,3 +60,99 @@ Example wake_on_exact_boundary :
   let s := {| r_buf := [0; 1; 65; 0; 2; 66; 67]; r_fo := 0; r_fs := 3; r_cs := 0; r_wake := false |} in
   option_map (fun s' => (r_wake s', r_fs s', headroom s')) (next_frame s) = Some (true, 4, 4).
 Proof. vm_compute. reflexivity. Qed.
+
+(** * No stall: whatever one call of agent_recv_message_unlocked (TCP branch) leaves behind, a complete frame in the reassembly buffer always comes
+    with the wake flag set.  The component's GSource is ready when the socket is readable or the flag is set; bytes already read no longer make the socket
+    readable, so this is what guarantees that a reader driven by the source alone is handed every frame. *)
+Section NoStall.
+Variable bs_mode : bool.
+Variable ctl : bytes -> bool.
+Variable gate : bool.
+
+Lemma mreadn_len b off n d : mreadn b off n = Some d -> lenZ d = n.
+Proof.
+  intros H. apply mreadn_inv in H. destruct H as (Ho & Hn & Hl & ->).
+  rewrite lenZ_takeZ, lenZ_dropZ. lia.
+Qed.
+
+(** the headroom the read phase reports is the headroom of the state it returns, and the bytes stay bytes *)
+Lemma read_phase_headroom s k sockret s1 h1 k1 :
+  bytes_ok (r_buf s) -> bytes_ok (pend k) ->
+  read_phase s k = Some (sockret, s1, h1, k1) ->
+  headroom s1 = h1 /\ bytes_ok (r_buf s1) /\ r_fs s1 = r_fs s.
+Proof.
+  intros Hb Hp H. unfold read_phase in H.
+  destruct (missing s).
+  2:{ inversion H; subst. auto. }
+  destruct (script k) as [|ev sc].
+  { inversion H; subst. auto. }
+  destruct ev as [cap| |].
+  - destruct (lenZ (pend k) =? 0). { inversion H; subst. auto. }
+    destruct (BUFSZ <? headroom s) eqn:Eb; [discriminate|].
+    destruct (mreadn (r_buf s) (r_fo s) (headroom s)) as [keep|] eqn:Ek; [|discriminate].
+    inversion H; subst; clear H. cbn [r_buf r_fo r_fs].
+    pose proof (mreadn_len _ _ _ _ Ek) as Hk.
+    apply mreadn_inv in Ek. destruct Ek as (_ & _ & _ & Hkeep).
+    split; [|split; [|reflexivity]].
+    + unfold headroom at 1; cbn [r_buf r_fo]. rewrite lenZ_app, Hk, Z.sub_0_r. reflexivity.
+    + apply bytes_ok_app. split.
+      * rewrite Hkeep. apply bytes_ok_takeZ, bytes_ok_dropZ, Hb.
+      * apply bytes_ok_takeZ, Hp.
+  - inversion H; subst. auto.
+  - inversion H; subst. auto.
+Qed.
+
+Lemma len_phase_same wm s1 h1 s2 :
+  len_phase wm s1 h1 = Some s2 -> r_buf s2 = r_buf s1 /\ r_fo s2 = r_fo s1 /\ (r_fs s1 <> 0 -> r_fs s2 = r_fs s1).
+Proof.
+  unfold len_phase. intros H.
+  destruct (wm && (r_fs s1 =? 0) && (2 <=? h1)) eqn:E.
+  - destruct (rd16 (r_buf s1) (r_fo s1)); [|discriminate]. inversion H; subst; cbn.
+    repeat split; auto. intros Hn. apply andb_prop in E. destruct E as [E _]. apply andb_prop in E. destruct E as [_ E].
+    apply Z.eqb_eq in E. contradiction.
+  - inversion H; subst. auto.
+Qed.
+
+Theorem recv_unlocked_no_stall s k m st s' k' m' :
+  bytes_ok (r_buf s) -> bytes_ok (pend k) ->
+  recv_unlocked bs_mode ctl gate s k m = Some (st, s', k', m') ->
+  missing s' = false -> r_wake s' = true.
+Proof.
+  intros Hb Hp H Hm. unfold recv_unlocked in H.
+  destruct (read_phase s k) as [[[[sockret s1] h1] k1]|] eqn:Er; [|discriminate].
+  destruct (read_phase_headroom _ _ _ _ _ _ Hb Hp Er) as (Hh & Hb1 & _).
+  destruct (len_phase (missing s) s1 h1) as [s2|] eqn:El; [|discriminate].
+  destruct (len_phase_same _ _ _ _ El) as (Hbuf & Hfo & _).
+  assert (Hh2 : headroom s2 = h1) by (unfold headroom in *; rewrite Hbuf, Hfo; exact Hh).
+  assert (Hb2 : bytes_ok (r_buf s2)) by (rewrite Hbuf; exact Hb1).
+  unfold deliver_phase in H.
+  destruct (negb (r_fs s2 =? 0) && (r_fs s2 <=? h1)) eqn:Ew.
+  - destruct (mreadn (r_buf s2) (r_fo s2 + 2) (r_fs s2 - 2)) as [payload|]; [|discriminate].
+    destruct ((lenZ payload =? 0) || ctl payload || negb gate).
+    + destruct (consume bs_mode s2 None) as [[s3 r]|] eqn:Ec; [|discriminate].
+      inversion H; subst; clear H.
+      destruct (consume_wake _ _ _ _ _ Hb2 Ec) as [Hw | (Hw & _)]; [rewrite Hw, Hm; reflexivity | exact Hw].
+    + destruct (consume bs_mode s2 (Some ([m], iter0))) as [[s3 r]|] eqn:Ec; [|discriminate].
+      destruct r as [[ms it]|]; [|discriminate].
+      destruct ms as [|m1 [|m2 ms]]; try discriminate.
+      inversion H; subst; clear H.
+      destruct (consume_wake _ _ _ _ _ Hb2 Ec) as [Hw | (Hw & _)]; [rewrite Hw, Hm; reflexivity | exact Hw].
+  - (* nothing handed out: the state is s2, which holds no complete frame *)
+    assert (Hs : s' = s2) by (destruct (sockret <? 0); inversion H; reflexivity).
+    subst s'. exfalso. unfold missing in Hm. rewrite Hh2 in Hm.
+    apply orb_false_elim in Hm. destruct Hm as [H0 H1].
+    rewrite H0 in Ew. cbn [negb andb] in Ew.
+    apply Z.leb_gt in Ew. apply Z.ltb_ge in H1. lia.
+Qed.
+End NoStall.
+
+(** two frames brought by one kernel read, the second ending on the last byte read: the first call hands out the first frame and leaves the flag set *)
+Example no_stall_two_frames_one_read :
+  let s0 := {| r_buf := []; r_fo := 0; r_fs := 0; r_cs := 0; r_wake := false |} in
+  let k0 := {| pend := [0; 1; 65; 0; 2; 66; 67]; script := [KRead 65536] |} in
+  let m0 := {| m_bufs := [repeat 0 16]; m_len := 0 |} in
+  match recv_unlocked false (fun _ => false) true s0 k0 m0 with
+  | Some (RSuccess, s1, k1, m1) => (valid_bytes m1, r_wake s1, missing s1, pend k1) = ([65], true, false, [])
+  | _ => False
+  end.
+Proof. vm_compute. reflexivity. Qed.
